@@ -268,7 +268,7 @@ def gen(ctx, i, cls):
         df["phi"] = 0.0; df["psi"] = 0.0; df["theta"] = 0.0      # the identity orientation
     index = None
     if cls == "odd_ids_index" or rng.random() < 0.15:
-        df["subtomo_id"] = rng.choice(np.arange(1, 10 ** int(rng.integers(2, 7))), size=N, replace=False).astype(float)
+        df["subtomo_id"] = rng.choice(np.arange(1, max(10 ** int(rng.integers(2, 7)), 3 * N)), size=N, replace=False).astype(float)
         index = (rng.integers(0, max(2, N // 2 + 1), N) * 3 + 5) if rng.random() < 0.5 else rng.permutation(N) + 11
     s, kind = _offset(rng, cls)
     sp = SPELLINGS[(i // len(CLASSES)) % 4]
